@@ -40,3 +40,45 @@ package auth
 //@ modifies $preErr, req.Options
 //@ ensures [C19] err == nil ==> $preErr == nil
 //@ ensures [C19] err == nil ==> has(a.indexer.index, string(req.Connect.Username)) && matches(a.config.Hash, stored(a, string(req.Connect.Username)), string(req.Connect.Password))
+
+// generatePassword: the stored form of a password is one that validate accepts for that same password.
+//@ func (*Auth).generatePassword
+//@ props C19
+//@ requires [C19] a != nil && a.config != nil && (a.config.Hash == "plain" || a.config.Hash == "md5" || a.config.Hash == "sha256" || a.config.Hash == "bcrypt")
+//@ ensures [C19] err == nil ==> matches(a.config.Hash, hashedPassword, password)
+
+// The password file, as a restarted broker would load it: $fileHas[u] / $filePwd[u]. saveFile (the field is
+// saveFileHandler in production; trusted, see DESIGN.md) returns nil only after the file holds exactly the accounts of
+// the indexer; when it fails the old file is still in place. synced(a): the file is what the indexer holds.
+//@ ghost field (Auth).fileHas string -> bool
+//@ ghost field (Auth).filePwd string -> string
+//@ spec func synced(a *Auth) bool = forall s string :: a.$fileHas[s] == has(a.indexer.index, s) && (has(a.indexer.index, s) ==> a.$filePwd[s] == stored(a, s))
+
+//@ func field (Auth).saveFile
+//@ params self
+//@ modifies ghost(self.$fileHas), ghost(self.$filePwd)
+//@ ensures result == nil ==> synced(self)
+//@ ensures result != nil ==> (forall s string :: self.$fileHas[s] == old(self.$fileHas[s]) && self.$filePwd[s] == old(self.$filePwd[s]))
+
+// Update: on success the account exists with a stored hash that validate accepts for the new password, every
+// other account is untouched, and the file holds exactly the indexer's accounts. On a persistence failure the
+// indexer is rolled back to the previous content (so the running broker and the file still agree if they did).
+//@ func (*Auth).Update
+//@ props C19
+//@ let U = req.Username
+//@ requires [C19] authOK(a) && req != nil && a.saveFile != nil
+//@ modifies map(a.indexer.index), all(list.Element.Value), ghost(a.indexer.rows.$len), ghost(a.indexer.rows.$next), ghostall(list.Element.$owner), ghostall(list.Element.$pos), ghost(a.$fileHas), ghost(a.$filePwd)
+//@ ensures [C19] err == nil && U != "" ==> authOK(a) && has(a.indexer.index, U) && matches(a.config.Hash, stored(a, U), req.Password) && synced(a)
+//@ ensures [C19] forall s string :: s != U ==> has(a.indexer.index, s) == old(has(a.indexer.index, s)) && (has(a.indexer.index, s) ==> stored(a, s) == old(stored(a, s)))
+//@ ensures [C19] err != nil ==> authOK(a) && has(a.indexer.index, U) == old(has(a.indexer.index, U)) && (has(a.indexer.index, U) ==> stored(a, U) == old(stored(a, U))) && (old(synced(a)) ==> synced(a))
+
+// Delete: on success the account is gone from the indexer and from the file, every other account is untouched;
+// on a persistence failure nothing changed.
+//@ func (*Auth).Delete
+//@ props C19
+//@ let U = req.Username
+//@ requires [C19] authOK(a) && req != nil && a.saveFile != nil
+//@ modifies map(a.indexer.index), all(list.Element.Value), ghost(a.indexer.rows.$len), ghost(a.indexer.rows.$next), ghostall(list.Element.$owner), ghostall(list.Element.$pos), ghost(a.$fileHas), ghost(a.$filePwd)
+//@ ensures [C19] err == nil && U != "" ==> authOK(a) && !has(a.indexer.index, U) && (old(has(a.indexer.index, U)) || old(synced(a)) ==> synced(a))
+//@ ensures [C19] forall s string :: s != U ==> has(a.indexer.index, s) == old(has(a.indexer.index, s)) && (has(a.indexer.index, s) ==> stored(a, s) == old(stored(a, s)))
+//@ ensures [C19] err != nil ==> authOK(a) && has(a.indexer.index, U) == old(has(a.indexer.index, U)) && (has(a.indexer.index, U) ==> stored(a, U) == old(stored(a, U))) && (old(synced(a)) ==> synced(a))
